@@ -124,32 +124,22 @@ def guards_intact(raw, off, nbytes):
     return bool((raw[:off] == 0xA5).all() and (raw[off + nbytes:] == 0xA5).all())
 
 
-def run_kernel(sim, name, vals, roles, cfg, flip=False, gstyle=0, step_cap=None, pct_est=1000,
-               track_conflicts=1, replay=None, strict=1):
-    """
-    vals[arg]  : scalar, or array content (roles in/io), or a shape list (roles out/work)
-    roles[arg] : "in" | "io" | "out" | "work"   (pointer arguments only)
-    returns (ret, arrays dict, stats)
-    """
+def _prep(name, vals, roles, gs, flip, gstyle, idbase=0):
     spec = K[name]
-    gs = cfg["garbage_seed"]
-    arrays = {}
-    call = []
-    regs = []
-    guards = []
+    arrays, call, regs, guards = {}, [], [], []
     for idx, (an, ct) in enumerate(spec["args"]):
         if ct.endswith("*"):
             role = roles[an]
             if role in ("in", "io"):
                 a = to_array(vals[an], ct)
             else:
-                a = enginea.garbage_array(tuple(vals[an]), DT[ct], gs + 17 * (idx + 1), gstyle)
+                a = enginea.garbage_array(tuple(vals[an]), DT[ct], gs + 17 * (idx + 1) + 1009 * idbase, gstyle)
                 if flip:
                     a = enginea.complement(a)
             a, raw, off = padded(a)
             guards.append((an, raw, off, a.nbytes))
             arrays[an] = a
-            regs.append((a, simlib.R if role == "in" else simlib.RW, idx + 1))
+            regs.append((a, simlib.R if role == "in" else simlib.RW, idbase + idx + 1))
             call.append(("p", a))
         elif ct == "int":
             call.append(("i", int(vals[an])))
@@ -159,6 +149,19 @@ def run_kernel(sim, name, vals, roles, cfg, flip=False, gstyle=0, step_cap=None,
             call.append(("d", float(vals[an])))
         else:
             raise ValueError(ct)
+    return arrays, call, regs, guards
+
+
+def run_kernel(sim, name, vals, roles, cfg, flip=False, gstyle=0, step_cap=None, pct_est=1000,
+               track_conflicts=1, replay=None, strict=1):
+    """
+    vals[arg]  : scalar, or array content (roles in/io), or a shape list (roles out/work)
+    roles[arg] : "in" | "io" | "out" | "work"   (pointer arguments only)
+    returns (ret, arrays dict, stats)
+    """
+    spec = K[name]
+    gs = cfg["garbage_seed"]
+    arrays, call, regs, guards = _prep(name, vals, roles, gs, flip, gstyle)
     c2 = dict(cfg)
     if flip:
         c2["garbage_seed"] = gs ^ 0x5555555555555555  # different stack / heap garbage too
@@ -172,6 +175,45 @@ def run_kernel(sim, name, vals, roles, cfg, flip=False, gstyle=0, step_cap=None,
     st = sim.stats()
     st["guard_broken"] = [an for an, raw, off, nb in guards if not guards_intact(raw, off, nb)]
     return ret, arrays, st
+
+
+def run_concurrent(sim, calls, cfg, gstyle=0, step_cap=None, pct_est=1000, replay=None, strict=1):
+    """
+    calls: [(name, vals, roles)] - each made by its own simulated caller thread (own arguments, own stack),
+    interleaved by the seeded scheduler at every instrumented access.  returns ([(ret, arrays)], stats)
+    """
+    gs = cfg["garbage_seed"]
+    preps = []
+    for k, (name, vals, roles) in enumerate(calls):
+        preps.append(_prep(name, vals, roles, gs, False, gstyle, idbase=100 * (k + 1)))
+    c2 = dict(cfg)
+    c2["team"] = len(calls)
+    enginea.apply_cfg(sim, c2, strict=strict, track_conflicts=0, pct_est=pct_est, step_cap=step_cap or 50000000,
+                      replay=replay)
+    sim.begin_run()
+    for arrays, call, regs, guards in preps:
+        for a, perm, rid in regs:
+            if a.nbytes:
+                sim.register(a, perm, rid)
+    ab, rets = sim.call_multi([(calls[k][0], preps[k][1], K[calls[k][0]]["ret"]) for k in range(len(calls))])
+    st = sim.stats()
+    st["guard_broken"] = [an for p in preps for an, raw, off, nb in p[3] if not guards_intact(raw, off, nb)]
+    out = []
+    for k in range(len(calls)):
+        out.append((rets[k] if rets is not None else None, preps[k][0]))
+    return out, st
+
+
+def threadsafe_kernels(repo=None):
+    """names of the wrapped functions the pyf declares 'threadsafe' (f2py releases the GIL around them)"""
+    import re
+    repo = repo or os.environ.get("VERIF_REPO", "/repo")
+    txt = open(os.path.join(repo, "src", "_cImageD11.pyf")).read()
+    out = []
+    for m in re.finditer(r"^\s*(?:function|subroutine)\s+(\w+)\s*\(.*?^\s*end\s+(?:function|subroutine)", txt, re.M | re.S):
+        if re.search(r"^\s*threadsafe\s*$", m.group(0), re.M):
+            out.append(m.group(1))
+    return out
 
 
 def region_names(name):
